@@ -203,10 +203,27 @@ pub fn input_for<F: GenFam>(rng: &mut Rng, b: &mut Budget, i: usize) -> Vec<u8> 
 
 // ------------------------------------------------------------------------------------------------
 // C06 (and the inputs of C03)
+/// the poll decoder under a schedule with Pendings (future kept or dropped), result only
+pub fn dec_poll_sched<F: Fam>(bytes: &[u8], sched_seed: u64) -> J {
+    let mut rng = Rng::new(sched_seed);
+    let stream = Arc::new(bytes.to_vec());
+    let (script, dflt) = random_schedule(&mut rng, bytes.len());
+    let mut st: GenericPollPacketState<F::Header> = Default::default();
+    let mut drng = Rng::new(sched_seed ^ 77);
+    let mut dropf = || drng.bool();
+    let (obs, pos) = poll_run::<F>(&stream, script, dflt, &mut dropf, &mut st, 0);
+    let mut r = obs.result;
+    r["pos"] = J::from(pos);
+    r
+}
+
 pub fn dec3_event<F: Fam>(out: &mut Out, bytes: &[u8]) {
+    let sched = bytes.iter().fold(0x9E37u64, |a, b| a.wrapping_mul(31).wrapping_add(*b as u64));
     out.ev(json!({"ev": "Dec3", "fam": F::NAME, "bytes": jbytes(bytes),
                   "block": dec_block::<F>(bytes), "async": dec_async::<F>(bytes, usize::MAX),
                   "poll": dec_poll::<F>(bytes, usize::MAX),
+                  "poll_sched": dec_poll_sched::<F>(bytes, sched),
+                  "async_1": dec_async::<F>(bytes, 1),
                   "hdr_block": header_block::<F>(bytes), "hdr_async": header_async::<F>(bytes)}));
 }
 
@@ -493,7 +510,8 @@ fn short_streams<F: GenFam>(rng: &mut Rng) -> Vec<Vec<u8>> {
             }
         }
     }
-    let extra: [&[u8]; 12] = [
+    let extra: [&[u8]; 15] = [
+        &[0x40, 0x82, 0x00, 0x00, 0x0A], &[0x62, 0x82, 0x80, 0x00, 0x00, 0x01], &[0xB0, 0x82, 0x00, 0x00, 0x05],
         &[0xC0, 0x01, 0x00], &[0xC0, 0x80, 0x00], &[0x40, 0x02, 0x00, 0x00], &[0x62, 0x02, 0x00, 0x01, 0x09],
         &[0x30, 0x80, 0x80, 0x80, 0x80, 0x01], &[0x40, 0x00], &[0x40, 0x03, 0x00, 0x01, 0x00], &[0x00, 0x00],
         &[0x30, 0x04, 0x00, 0x02, 0xC3, 0x28], &[0x82, 0x02, 0x00, 0x01], &[0xE0, 0x00], &[0xD0, 0x00, 0xFF],
@@ -551,6 +569,13 @@ fn wide_frame<F: GenFam>(rng: &mut Rng, b: &mut Budget, i: usize) -> Vec<u8> {
         }
         body.extend(rng.bytes(n - body.len()));
         v = crate::topic::frame(0x30, &body);
+    }
+    if i % 5 == 1 {
+        // the same frame with a padded (non-minimal) remaining length: every decoder accepts it, and the
+        // reported size must still be what was consumed
+        if let Some(fr) = crate::tokens::tokenize(F::NAME, &v) {
+            v = crate::tokens::nonminimal_rl(&fr);
+        }
     }
     if rng.chance(1, 3) {
         v.extend(rng.bytes_range(1, 5));
